@@ -125,6 +125,10 @@ type EnvelopeFieldValue struct {
 
 func (envelopeField EnvelopeFieldValue) AsIR(schemas ast.Schemas, envelopeType ast.Type) (ast.EnvelopeFieldValue, error) {
 	resolvedEnvelope := schemas.ResolveToType(envelopeType)
+	if !resolvedEnvelope.IsStruct() {
+		return ast.EnvelopeFieldValue{}, fmt.Errorf("envelope values can only be assigned into a struct, got %s", resolvedEnvelope.Kind)
+	}
+
 	field, found := resolvedEnvelope.Struct.FieldByName(envelopeField.Field)
 	if !found {
 		return ast.EnvelopeFieldValue{}, fmt.Errorf("envelope field %s not found", envelopeField.Field)
